@@ -16,6 +16,7 @@ import sys
 sys.path.insert(0, os.path.dirname(os.path.dirname(os.path.abspath(__file__))))
 import common
 from gen import rx
+from gen import srcdict
 import engine_real
 import obj_streams
 
@@ -124,14 +125,44 @@ def object_histories(ctx):
     hs += obj_streams.ladders(rnd, OPS, lengths=ctx.pick((100, 1000, 10000), (100, 1000, 10000, 100000, 1000000)),
                               widths=ctx.pick((10, 100, 1000), (10, 100, 1000, 10000)), depths=(10, 30, 100),
                               per_rung=ctx.pick(3, 6))
+    ks, bl_rule = blowup_rungs(ctx)
+    hs += blowup_histories(rnd, ks, ctx.pick(2, 4))
     rule = ("OBJECT streams (real engine against the reference semantics of the tree): sessions = all trees of size <= %d x all words of length <= 3, "
             "one process per 30 patterns with structurally equal operator sub-trees being one Python object within and across patterns, in "
             "enumeration order and shuffled, every call repeated on the same objects; variants = all trees of size <= %d over the alphabets %s "
             "with one-item operands written bare and as lists; edits = %d random histories of 2-4 patterns on ONE list object edited in place "
             "(slice / pop+append / pop(0)+insert / clear+extend), random alphabet / spelling / sharing; ladders = sequence length %s, items in "
             "the pattern list %s, operator nesting 10, 30, 100 (deeper: Python recursion in the engine's construction)"
-            % (ctx.pick(4, 5), ctx.pick(3, 4), ", ".join(rx.ALPHABETS), ctx.pick(400, 6000), ctx.pick("10^2..10^4", "10^2..10^6"), ctx.pick("10..10^3", "10..10^4")))
+            % (ctx.pick(4, 5), ctx.pick(3, 4), ", ".join(rx.ALPHABETS), ctx.pick(400, 6000), ctx.pick("10^2..10^4", "10^2..10^6"), ctx.pick("10..10^3", "10..10^4")) + "; " + bl_rule)
     return hs, rule
+
+
+def blowup_rungs(ctx):
+    """k ladder for the families of gen/rx.py `blowup` (about 2^(k+1) DFA states): a geometric ladder of the number of
+    DFA states (factor 4) plus, for every integer n the current source has and the pinned tree has not, the k around
+    log2 n (a state-count limit introduced by a change becomes a rung)"""
+    base = ctx.pick((1, 2, 4, 6, 8, 10), (1, 2, 3, 4, 5, 6, 7, 8, 9, 10, 11, 12, 13))
+    top = ctx.pick(11, 13)      # k = 13: about 2 s per call (the runner gives a call 20 s)
+    novel = set()
+    for n in srcdict.novel_ints():
+        if 8 <= n <= 2 ** (top + 1):
+            lg = n.bit_length() - 1          # 2^lg <= n
+            novel.update(k for k in (lg - 2, lg - 1, lg, lg + 1) if 1 <= k <= top)
+    ks = sorted(set(base) | novel)
+    return ks, ("blow-up = the families %s of gen/rx.py (exponential subset construction, about 2^(k+1) DFA states from about 4k nodes) for k = %s%s, "
+                "sequences over the two letters of length k+1..2k+3 and each of them cut at the reference's shortest matching prefix (the whole "
+                "sequence is the prefix), one item before it and with a foreign item after it; reference: position automaton"
+                % (", ".join(rx.BLOWUP_FAMILIES), "/".join(map(str, ks)), " (source-literal rungs: %s)" % sorted(novel) if novel else ""))
+
+
+def blowup_histories(rnd, ks, n):
+    hs = []
+    for k in ks:
+        for fam in rx.BLOWUP_FAMILIES:
+            r, ws = rx.blowup_words(rnd, fam, k, n if k <= 10 else 1)      # a call costs about 0.1 s * 2^(k-9) (subset construction per call)
+            hs.append({"kind": "ladder/blowup", "rung": k, "alphabet": "letters", "spelling": "list", "sharing": "none", "heavy": k >= 8,
+                       "steps": [{"ast": r, "how": "new", "calls": [[op, w] for w in ws for op in OPS]}]})
+    return hs
 
 
 def run_objects(ctx):
